@@ -134,3 +134,50 @@ def enclosing_chain(func, node):
 
 def in_loop(func, node):
     return any(a["kind"] in ("WhileStmt", "ForStmt", "DoStmt") for a in enclosing_chain(func, node))
+
+
+def global_effects(m, cut=()):
+    """(`cut`: function names whose effects are not propagated to callers, e.g. the assertion-failure
+    and logging paths, which do not influence returned values.)  Transitive read/write sets of static-storage variables per function key:
+    {fkey: {'reads': set(gkey), 'writes': set(gkey)}} (direct calls + type-compatible indirect targets)."""
+    direct = {}
+    for f in m.funcs.values():
+        rd, wr = set(), set()
+        wnodes = set()
+        for lhs, rhs, kind, node in stores(f):
+            root = strip(lhs, casts=True)
+            while root["kind"] in ("MemberExpr", "ArraySubscriptExpr") and kids(root):
+                if root["kind"] == "MemberExpr" and root.get("isArrow"):
+                    root = None
+                    break
+                root = strip(kids(root)[0], casts=True)
+            if root is not None and root["kind"] == "DeclRefExpr" and root.get("ref", {}).get("kind") == "VarDecl":
+                gk = m.global_key(f.unit, f, root["ref"])
+                if gk:
+                    wr.add(gk)
+                    wnodes.add(id(root))
+                    if kind != "=":
+                        rd.add(gk)
+        for n in walk(f.body):
+            if n["kind"] == "DeclRefExpr" and n.get("ref", {}).get("kind") == "VarDecl" and id(n) not in wnodes:
+                gk = m.global_key(f.unit, f, n["ref"])
+                if gk:
+                    rd.add(gk)
+        direct[f.key] = {"reads": rd, "writes": wr}
+    cg = m.callgraph()
+    eff = {k: {"reads": set(v["reads"]), "writes": set(v["writes"])} for k, v in direct.items()}
+    changed = True
+    while changed:
+        changed = False
+        for f, cs in cg.items():
+            e = eff.setdefault(f, {"reads": set(), "writes": set()})
+            for c in cs:
+                ce = eff.get(c)
+                if not ce or c.split("@")[0] in cut:
+                    continue
+                for kind in ("reads", "writes"):
+                    add = ce[kind] - e[kind]
+                    if add:
+                        e[kind] |= add
+                        changed = True
+    return direct, eff
